@@ -5,7 +5,7 @@
   "C07"
  ],
  "level": "U",
- "tier": "wip",
+ "tier": "quick",
  "harness": "h_flexbg_offset_bitmaps",
  "functions": [
   "lib/ext2fs/alloc_tables.c:flexbg_offset"
@@ -29,7 +29,7 @@
   "C07"
  ],
  "level": "U",
- "tier": "wip",
+ "tier": "thorough",
  "harness": "h_flexbg_offset_itable_wide",
  "functions": [
   "lib/ext2fs/alloc_tables.c:flexbg_offset"
@@ -54,7 +54,7 @@
   "C07"
  ],
  "level": "U",
- "tier": "wip",
+ "tier": "thorough",
  "harness": "h_flexbg_offset_itable_many",
  "functions": [
   "lib/ext2fs/alloc_tables.c:flexbg_offset"
